@@ -139,28 +139,35 @@ FromEst(x) ==
 
 \* ---------------------------------------------------------------- comparison form
 CtorKinds == {"decimal", "ip"}     \* value nodes the encoder writes as constructor calls
-RECURSIVE NormE(_)
-NormE(e) ==
+\* NormX(e, ctor): ctor = TRUE is the comparison form used for verdicts (a constructor call on a valid literal is the
+\* value it denotes); ctor = FALSE keeps the two apart (strict: `identical expression nodes`)
+RECURSIVE NormX(_, _)
+NormE(e) == NormX(e, TRUE)
+NormX(e, ctor) ==
   LET op == e.op IN
   CASE op = "val" -> e
     [] op \in {"var", "error"} -> e
     [] op \in {"and", "or", "eq", "ne", "lt", "le", "gt", "ge", "add", "sub", "mul", "in",
-               "contains", "containsAll", "containsAny", "hasTag", "getTag"} -> [op |-> op, l |-> NormE(e.l), r |-> NormE(e.r)]
-    [] op \in {"not", "neg", "isEmpty"} -> [op |-> op, a |-> NormE(e.a)]
-    [] op \in {"access", "has"} -> [op |-> op, a |-> NormE(e.a), attr |-> e.attr]
-    [] op = "like" -> [op |-> op, a |-> NormE(e.a), pat |-> NormPat(e.pat)]
-    [] op = "is" -> [op |-> op, a |-> NormE(e.a), ty |-> e.ty]
-    [] op = "isIn" -> [op |-> op, a |-> NormE(e.a), ty |-> e.ty, e |-> NormE(e.e)]
-    [] op = "if" -> [op |-> op, c |-> NormE(e.c), t |-> NormE(e.t), e |-> NormE(e.e)]
-    [] op = "set" -> [op |-> op, els |-> [i \in DOMAIN e.els |-> NormE(e.els[i])]]
-    [] op = "rec" -> [op |-> op, kv |-> { [key |-> e.kv[i].key, val |-> NormE(e.kv[i].val)] : i \in DOMAIN e.kv }]
+               "contains", "containsAll", "containsAny", "hasTag", "getTag"} -> [op |-> op, l |-> NormX(e.l, ctor), r |-> NormX(e.r, ctor)]
+    [] op \in {"not", "neg", "isEmpty"} -> [op |-> op, a |-> NormX(e.a, ctor)]
+    [] op \in {"access", "has"} -> [op |-> op, a |-> NormX(e.a, ctor), attr |-> e.attr]
+    [] op = "like" -> [op |-> op, a |-> NormX(e.a, ctor), pat |-> NormPat(e.pat)]
+    [] op = "is" -> [op |-> op, a |-> NormX(e.a, ctor), ty |-> e.ty]
+    [] op = "isIn" -> [op |-> op, a |-> NormX(e.a, ctor), ty |-> e.ty, e |-> NormX(e.e, ctor)]
+    [] op = "if" -> [op |-> op, c |-> NormX(e.c, ctor), t |-> NormX(e.t, ctor), e |-> NormX(e.e, ctor)]
+    [] op = "set" -> [op |-> op, els |-> [i \in DOMAIN e.els |-> NormX(e.els[i], ctor)]]
+    [] op = "rec" -> [op |-> op, kv |-> { [key |-> e.kv[i].key, val |-> NormX(e.kv[i].val, ctor)] : i \in DOMAIN e.kv }]
     [] op = "ext" ->
-         LET args == [i \in DOMAIN e.args |-> NormE(e.args[i])] IN
-         IF e.fn \in CtorKinds /\ Len(args) = 1 /\ args[1].op = "val" /\ args[1].v.k = "str" /\ SpecRead(e.fn, args[1].v.s).ok
+         LET args == [i \in DOMAIN e.args |-> NormX(e.args[i], ctor)] IN
+         IF ctor /\ e.fn \in CtorKinds /\ Len(args) = 1 /\ args[1].op = "val" /\ args[1].v.k = "str" /\ SpecRead(e.fn, args[1].v.s).ok
          THEN [op |-> "val", v |-> SpecRead(e.fn, args[1].v.s).v]
          ELSE [op |-> op, fn |-> e.fn, args |-> args]
 NormP(p) == [effect |-> p.effect, annos |-> { p.annos[i] : i \in DOMAIN p.annos },
              principal |-> p.principal, action |-> p.action, resource |-> p.resource,
              conds |-> [i \in DOMAIN p.conds |-> [kind |-> p.conds[i].kind, body |-> NormE(p.conds[i].body)]]]
 SameAst(a, b) == NormP(a) = NormP(b)
+NormPStrict(p) == [effect |-> p.effect, annos |-> { p.annos[i] : i \in DOMAIN p.annos },
+                   principal |-> p.principal, action |-> p.action, resource |-> p.resource,
+                   conds |-> [i \in DOMAIN p.conds |-> [kind |-> p.conds[i].kind, body |-> NormX(p.conds[i].body, FALSE)]]]
+SameAstStrict(a, b) == NormPStrict(a) = NormPStrict(b)
 =============================================================================
